@@ -40,7 +40,7 @@ NoGrant == [from |-> -1, ps |-> -1, inring |-> FALSE, offers |-> 0, pending |-> 
 NoVisit == [open |-> FALSE, claim |-> FALSE, gappolls |-> 0, appreqs |-> 0, tok2 |-> FALSE]
 NoPass == [by |-> -1, to |-> -1, n |-> 0]
 NoWatch == [by |-> -1, to |-> -1, heard |-> FALSE]
-NoRot == [cur |-> {}, prev |-> {}, prev2 |-> {}, n |-> 0, started |-> FALSE, claimed |-> FALSE]
+NoRot == [cur |-> {}, prev |-> {}, prev2 |-> {}, n |-> 0, started |-> FALSE, claimed |-> FALSE, ok |-> FALSE]
 
 Stations(cfg) == ToSet(cfg.stations)
 Idx(cfg, s) == CHOOSE i \in 1..Len(cfg.stations) : cfg.stations[i] = s
@@ -60,7 +60,7 @@ RuleInit(cfg) ==
    pas |-> NoPass,
    visit |-> [s \in St |-> NoVisit],
    recvPrev |-> [s \in St |-> -1], recvCur |-> [s \in St |-> -1],
-   cad |-> [s \in St |-> [a \in 0..(cfg.hsa - 1) |-> -1]], cadNs |-> [s \in St |-> -1],
+   cadNs |-> [s \in St |-> -1], cadPolled |-> [s \in St |-> {}], cadVisits |-> [s \in St |-> 0], cadBad |-> FALSE,
    expectSucc |-> [s \in St |-> -1],
    appsent |-> [s \in St |-> FALSE],
    outstanding |-> [s \in St |-> -1], rrNext |-> [s \in St |-> -1], declined |-> [s \in St |-> {}],
@@ -100,19 +100,23 @@ Class(rs, e) ==
   ELSE IF last.by = s /\ Kind(last.b) = "token" /\ Kind(b) = "token" /\ gap >= rs.cfg.tsl - rs.cfg.us THEN "PassSupervision"
   ELSE "None"
 
-(* new token visit of station s beginning at time t *)
+(* new token visit of station s beginning at time t.  GAP cadence (C12.cadence): while NS is     *)
+(* unchanged, every window of |GAP| + G + 5 visits must have polled every GAP address.            *)
 NewVisit(rs, s, claim, tok2, t) ==
   LET ns == rs.pub[s].ns
       hsa == rs.cfg.hsa
       fresh == rs.cadNs[s] # ns
-      cad0 == IF fresh THEN [a \in 0..(hsa - 1) |-> IF InGap(s, ns, hsa, a) THEN 0 ELSE -1] ELSE rs.cad[s]
-      cad1 == [a \in 0..(hsa - 1) |-> IF cad0[a] >= 0 THEN cad0[a] + 1 ELSE -1]
+      visits == IF fresh THEN 0 ELSE rs.cadVisits[s] + 1
+      gapsz == IF ns > s THEN ns - s - 1 ELSE IF ns < s THEN (hsa - 1 - s) + ns ELSE hsa - 1
+      full == ~fresh /\ visits >= gapsz + rs.cfg.gap + 5
+      missed == full /\ ~(GapSet(s, ns, hsa) \subseteq rs.cadPolled[s])
   IN [rs EXCEPT !.recvPrev[s] = rs.recvCur[s], !.recvCur[s] = t,
                 !.visit[s] = [open |-> TRUE, claim |-> claim, gappolls |-> 0, appreqs |-> 0, tok2 |-> tok2],
                 !.declined[s] = {},
-                !.cad[s] = cad1, !.cadNs[s] = ns]
-CadenceBound(rs, s) == Cardinality({a \in 0..(rs.cfg.hsa - 1) : rs.cad[s][a] >= 0}) + rs.cfg.gap + 5
-CadenceOk(rs, s) == \A a \in 0..(rs.cfg.hsa - 1) : rs.cad[s][a] <= CadenceBound(rs, s)
+                !.cadNs[s] = ns,
+                !.cadVisits[s] = IF full THEN 0 ELSE visits,
+                !.cadPolled[s] = IF fresh \/ full THEN {} ELSE @,
+                !.cadBad = @ \/ missed]
 
 (* rotation bookkeeping for C12.ready: every online station that has not yet seen its     *)
 (* rotations counts the token senders between wrap-arounds                                 *)
@@ -123,7 +127,10 @@ RotWitness(rs, sa, da, t0) ==
       ELSE IF sa = s /\ da = s THEN [r EXCEPT !.claimed = TRUE]
       ELSE IF ~r.started THEN (IF da <= sa THEN [r EXCEPT !.started = TRUE, !.cur = {}] ELSE r)
       ELSE LET cur == r.cur \cup {sa} IN
-           IF da <= sa THEN [r EXCEPT !.prev2 = r.prev, !.prev = cur, !.cur = {}, !.n = r.n + 1]
+           IF da <= sa
+           THEN \* a rotation is complete; two rotations with no new sender seen: sticky (the LAS stays valid)
+                [r EXCEPT !.prev2 = r.prev, !.prev = cur, !.cur = {}, !.n = r.n + 1,
+                          !.ok = @ \/ (r.n + 1 >= 2 /\ cur \subseteq (r.prev \cup {s}))]
            ELSE [r EXCEPT !.cur = cur]]]
 
 OnTx(rs, e) ==
@@ -178,7 +185,7 @@ OnTx(rs, e) ==
       stt == IF sresp THEN RespState(b) ELSE 0
       c12r == <<
         <<"C12.reply.state", sresp => /\ (stt = 3) = p.in_ring
-                                       /\ (stt = 2 => (p.ready /\ Sa(last.b) = p.ps))
+                                       /\ (stt = 2 => (p.ready /\ Da(b) = p.ps))     \* Da(b): the requester being answered
                                        /\ ((~p.ready /\ ~p.in_ring) => stt = 1)>>,
         <<"C12.reply.when", (sresp /\ ~single) => gap <= cfg.tsl>> >>
       (* ---- C06.single after recovery: transmissions need a permission class again *)
@@ -216,7 +223,7 @@ OnTx(rs, e) ==
                                                      !.grant[d] = [from |-> s, ps |-> rs.pub[d].ps, inring |-> rs.pub[d].in_ring,
                                                                    offers |-> off, pending |-> TRUE]], d, FALSE, FALSE, e.t1)
                              ELSE a
-      rs6 == IF gappoll THEN [rs5 EXCEPT !.visit[s].gappolls = @ + 1, !.cad[s][Da(b)] = IF @ >= 0 THEN 0 ELSE @]
+      rs6 == IF gappoll THEN [rs5 EXCEPT !.visit[s].gappolls = @ + 1, !.cadPolled[s] = @ \cup {Da(b)}]
              ELSE IF appreq THEN [rs5 EXCEPT !.visit[s].appreqs = @ + 1]
              ELSE rs5
       rs7 == IF sresp /\ stt \in {2, 3} /\ RespStatus(b) = 0 /\ last.by \in St /\ ~last.app
@@ -264,8 +271,8 @@ OnPoll(rs, e) ==
       becomesReady == ~e.pre.ready /\ e.post.ready
       r == rs.rot[s]
       claimable == e.t - Max2(rs.last.t1, rs.since[s]) >= Tto(cfg, s) - cfg.us
-      readyOk == becomesReady => (r.claimed \/ (r.n >= 2 /\ r.prev \subseteq (r.prev2 \cup {s})) \/ claimable)
-      cadOk == CadenceOk(rs, s)
+      readyOk == becomesReady => (r.claimed \/ r.ok \/ claimable)
+      cadOk == ~rs.cadBad
       rs1 == [rs EXCEPT !.pub[s] = e.post, !.pre[s] = e.pre, !.appsent[s] = FALSE,
                         !.hw = IF hwme THEN NoWatch ELSE @]
       wasReached == rs.reached
@@ -282,7 +289,7 @@ OnPoll(rs, e) ==
               \o (IF wasReached /\ s \in rs.online THEN <<ConvProp(rs) \o ".stable">> ELSE <<>>)
               \o (IF ~wasReached /\ rs2.reached THEN <<ConvProp(rs) \o ".converge">> ELSE <<>>)
       \* a cadence overrun is reported once: restart the counters
-      rs3 == IF cadOk THEN rs2 ELSE [rs2 EXCEPT !.cad[s] = [a \in 0..(cfg.hsa - 1) |-> IF @[a] >= 0 THEN 0 ELSE -1]]
+      rs3 == IF cadOk THEN rs2 ELSE [rs2 EXCEPT !.cadBad = FALSE]
   IN R(FirstBad(cs), [st |-> s], rs3, hits)
 
 (* ------------------------------------------------------------------ Cb (C15) *)
